@@ -200,6 +200,20 @@ def build(ctx):
                                         meta={"big_loops": ["ref_walk_%s.%d" % (msg.name, x) for x in range(16)]},
                                         desc="message %s.%s level %s: cursor-based getter(s) %s (plain, init, dont_move, init_dont_move, skip) return what the reference decode gives at the reference position" % (sch.ns, msg.name, lv.name, [a[0] for a in chunk]),
                                         bounds={"N": N, "G": G, "D": D, "std": "c++" + std, "build": mode, "byte_order": "BE" if sch.be else "LE"}))
+    # open known finding F02b: <data> header composites that are not exactly [length at offset 0][varData right after it] are accepted, but the accessors assume that layout
+    if "F02b" in ctx.open:
+        sch, inc = hgen.gen_headers(ctx, "vs_kf_datahdr.xml")
+        for mname in ("m", "m2"):
+            msg = sch.message(mname)
+            g = msggen.MG(sch, msg, G)
+            u = ctx.lower("c02_%s_%s" % (sch.ns, msg.name), g.cpp_prelude() + g.cpp_getset(setters=False) + g.cpp_geom(mutators=False), std="17", mode="checked", incs=[inc])
+            N = g.max_size(0, D) + 1
+            arms = [a for a in dyn_arms(g, g.levels[0]) if a[0] == "data_d"]
+            hs.append(P.Harness("%s_%s_twin_F02b_cxx17" % (sch.ns, mname), harness(u, g, arms, N, 0, D), [u], unwind=G + 2, cap=ctx.q(600, 1200), defines=["VERIF_WHICH=0"],
+                                backends=["minisat", "kissat"], extra_flags=["--no-standard-checks"], expect="refuted", witness=False,
+                                meta={"finding": "F02b", "big_loops": ["ref_walk_%s.%d" % (msg.name, x) for x in range(16)]},
+                                desc="twin of known finding F02b: getters of <data> %s.%s.d whose header composite has %s" % (sch.ns, mname, "length at offset 1 and varData at offset 4" if mname == "m" else "a member in front of length"),
+                                bounds={"N": N, "D": D, "std": "c++17"}))
     # extreme data length: the member after a <data> whose length is anywhere in 0..255 (uint8 length type)
     for (xml, std, mode) in plan(ctx)[:2 if ctx.quick else None]:
         if os.path.isabs(xml): continue
